@@ -475,12 +475,16 @@ impl<'a> Run<'a> {
         let Ok(mut file) = fatal::create_file(&path) else {
             return
         };
+        #[cfg(routinator_verif)]
+        crate::verif::kill_point("store-status-truncated");
         if let Err(err) = StoredStatus::new(Time::now()).write(&mut file) {
             error!(
                 "Failed to write store status file {}: {}",
                 path.display(), err
             );
         }
+        #[cfg(routinator_verif)]
+        crate::verif::kill_point("store-status-written");
     }
 
     /// Loads a stored trust anchor certificate.
@@ -826,6 +830,8 @@ impl StoredPoint {
                 Failed
 
             })?;
+            #[cfg(routinator_verif)]
+            crate::verif::kill_point("store-point-reopen-truncated");
 
             if let Err(err) = file.seek(SeekFrom::Start(0)) {
                 error!(
@@ -843,6 +849,8 @@ impl StoredPoint {
                 );
                 return Err(Failed)
             }
+            #[cfg(routinator_verif)]
+            crate::verif::kill_point("store-point-reopen-written");
 
             return Ok(Self {
                 path,
@@ -897,6 +905,8 @@ impl StoredPoint {
                 return Err(Failed)
             }
         };
+        #[cfg(routinator_verif)]
+        crate::verif::kill_point("store-point-create-created");
         let header = StoredPointHeader::new(
             manifest_uri.clone(), rpki_notify.cloned(),
         );
@@ -907,6 +917,8 @@ impl StoredPoint {
             );
             return Err(Failed)
         }
+        #[cfg(routinator_verif)]
+        crate::verif::kill_point("store-point-create-written");
 
         Ok(StoredPoint {
             path,
@@ -990,6 +1002,8 @@ impl StoredPoint {
             );
             return Err(UpdateError::fatal())
         }
+        #[cfg(routinator_verif)]
+        crate::verif::kill_point("store-update-tmp-manifest");
         let tmp_object_start = match tmp_file.stream_position() {
             Ok(some) => some,
             Err(err) => {
@@ -1008,6 +1022,8 @@ impl StoredPoint {
                 );
                 return Err(UpdateError::fatal())
             }
+            #[cfg(routinator_verif)]
+            crate::verif::kill_point("store-update-tmp-object");
         }
 
         let tmp_file = tmp_file.into_inner().map_err(|err| {
@@ -1019,6 +1035,8 @@ impl StoredPoint {
             UpdateError::fatal()
         })?;
 
+        #[cfg(routinator_verif)]
+        crate::verif::kill_point("store-update-tmp-flushed");
         // I think we need to drop `self.file` first so it gets closed and the
         // path unlocked on Windows?
         drop(self.file.take());
@@ -1033,6 +1051,8 @@ impl StoredPoint {
                 return Err(UpdateError::fatal())
             }
         }
+        #[cfg(routinator_verif)]
+        crate::verif::kill_point("store-update-persisted");
         self.manifest = Some(manifest);
 
         // Position the file at the first object. (The if will always be
@@ -1070,6 +1090,8 @@ impl StoredPoint {
                 return Err(Failed)
             }
         };
+        #[cfg(routinator_verif)]
+        crate::verif::kill_point("store-point-reject-truncated");
         if let Err(err) = self.header.write(&mut file) {
             error!(
                 "Failed to write stored publication point at {}: {}",
@@ -1077,6 +1099,8 @@ impl StoredPoint {
             );
             return Err(Failed)
         }
+        #[cfg(routinator_verif)]
+        crate::verif::kill_point("store-point-reject-written");
         Ok(())
     }
 
